@@ -2,9 +2,9 @@ SPECIFICATION SimSpec
 CONSTANTS
   p1 = p1  p2 = p2
   Peers = {p1, p2}
-  Reqs <- MCReqs
-  PieceOfReq <- MCPieceOfReq
-  Servable <- MCServable
+  Reqs <- MCReqs5
+  PieceOfReq <- MCPieceOfReq5
+  Servable <- MCServable5
   Pieces = {0, 1}
   MaxSteps = 30
   QMax = 250
